@@ -63,6 +63,13 @@ class Ctx:
         self.evaluations += len(lines)
         self.corr_commands[label] = self.corr_commands.get(label, 0) + len(lines)
         for l, o in zip(lines, impl_out):
+            for marker in FAMILY_MARKERS:
+                if marker in o:
+                    # the harness's own cross-checks on the implementation (members of one reader / API family fed
+                    # the same input, the same question asked twice, a second observer): a concrete failing input
+                    self.fail('the implementation disagrees with itself: ' + marker, {'family_op': l},
+                              'one answer', o[o.index(marker):][:600], {'kind': 'family', 'marker': marker})
+                    break
             nt = nontrivial(l, o) if nontrivial else not o.startswith('ERR:')
             if nt:
                 self.nontriv(l)
@@ -91,6 +98,9 @@ class Ctx:
     def fail(self, what, input, expected, observed, signature=None):
         self.failures.append({'what': what, 'input': input, 'expected': expected, 'observed': observed,
                               'signature': signature or {}, 'seed': self.seed, 'tier': self.tier})
+
+
+FAMILY_MARKERS = ('READERS-DIFFER', 'RESULT-DEPENDS-ON-EARLIER-RESULT', 'OBSERVER-CALLED-')
 
 
 def match_known(failure, findings, pid):
@@ -158,7 +168,13 @@ def run_check(pid, tier, replay=None):
             print('replay %s names proof obligations / correspondences, not an input: re-running the check' % replay)
             return run_check(pid, payload.get('tier', tier))
         ok = None
-        if hasattr(prop, 'replay'):
+        if 'family_op' in payload['failure'].get('input', {}):
+            from . import impl
+            o = impl.step(payload['failure']['input']['family_op'])
+            print('observed:', o[:600])
+            ctx = Ctx(pid, tier, seed, False)
+            ok = not any(mk in o for mk in FAMILY_MARKERS)
+        elif hasattr(prop, 'replay'):
             ctx = Ctx(pid, tier, seed, False)
             ok = prop.replay(ctx, payload)        # None = not handled by the property's own replay
         if ok is None:
